@@ -78,10 +78,12 @@ class Gen:
         base = ts["base"]
         ch = self.ch
         if dim:
+            typed = dim == "(3)" and "typed_constructor" not in self.excl     # an array constructor with a type spec: a second `::`
             if base == "integer":
-                return ch.choice(["0", "[1, 2, 3]" if dim == "(3)" else "0", "(/ 1, 2, 3 /)" if dim == "(3)" else "1"])
+                return ch.choice(["0", "[1, 2, 3]" if dim == "(3)" else "0", "(/ 1, 2, 3 /)" if dim == "(3)" else "1",
+                                  "[integer :: 1, 2, 3]" if typed else "1"])
             if base == "real":
-                return ch.choice(["0.0", "1.5"])
+                return ch.choice(["0.0", "1.5", "[real :: 1.0, 2.0, 3.0]" if typed else "0.0"])
             return None
         if base == "integer":
             if ts.get("kind"):
